@@ -29,8 +29,8 @@ impl<I: Iterator> Iterator for Hinted<I> {
 
 type Model = BTreeMap<u16, (u32, i32)>; // id -> (stored tag, priority)
 
-struct Fail { props: &'static str, what: String }
-macro_rules! ck { ($c:expr, $p:expr, $($a:tt)*) => { if !($c) { return Err(Fail { props: $p, what: format!($($a)*) }); } } }
+struct Fail { props: String, what: String }
+macro_rules! ck { ($c:expr, $p:expr, $($a:tt)*) => { if !($c) { return Err(Fail { props: String::from($p), what: format!($($a)*) }); } } }
 
 trait Q: Clone {
     fn kind() -> &'static str;
@@ -60,10 +60,12 @@ trait Q: Clone {
     fn from_vec(v: Vec<(It, i32)>) -> Self;
     fn from_it(v: Vec<(It, i32)>, lo: usize, hi: Option<usize>) -> Self;
     fn roundtrip(&self) -> Result<Self, String>;
+    fn from_json(s: &str) -> Result<Self, String>;
     fn same(&self, o: &Self) -> bool;
     fn convert(self) -> Self;
     fn capacity_ops(&mut self, n: usize) -> Result<(), String>;
     fn leak_iter_mut(&mut self, writes: usize);
+    fn sorted_iter_lens(self, k: usize) -> Result<(), String>;
     fn pop_hi_if_panic(&mut self);
     /// run an operation whose user callback panics at its k-th call (the panic is caught by the caller)
     fn faulty(&mut self, which: u64, k: usize, id: u16);
@@ -93,6 +95,7 @@ macro_rules! common { ($T:ident) => {
     fn from_it(v: Vec<(It, i32)>, lo: usize, hi: Option<usize>) -> Self { Hinted { it: v.into_iter(), lo, hi }.collect() }
     fn roundtrip(&self) -> Result<Self, String> { let s = serde_json::to_string(self).map_err(|e| e.to_string())?; serde_json::from_str(&s).map_err(|e| e.to_string()) }
     fn same(&self, o: &Self) -> bool { self == o }
+    fn from_json(s: &str) -> Result<Self, String> { serde_json::from_str(s).map_err(|e| e.to_string()) }
     fn leak_iter_mut(&mut self, writes: usize) { let mut it = self.iter_mut(); for _ in 0..writes { if let Some((_, p)) = it.next() { *p -= 5; } } std::mem::forget(it); }
     fn faulty(&mut self, which: u64, k: usize, id: u16) {
         let mut n = 0usize;
@@ -113,6 +116,10 @@ macro_rules! common { ($T:ident) => {
         self.reserve_exact(n / 2 + 1); if self.capacity() < l + n / 2 + 1 { return Err(format!("after reserve_exact({}) capacity() = {} < len {} + {}", n / 2 + 1, self.capacity(), l, n / 2 + 1)); }
         if self.try_reserve_exact(n).is_ok() && self.capacity() < l + n { return Err(format!("after try_reserve_exact({}) = Ok capacity() = {} < len {} + {}", n, self.capacity(), l, n)); }
         if self.try_reserve(usize::MAX / 2).is_ok() { return Err("try_reserve(usize::MAX/2) returned Ok".into()); }
+        for d in [0usize, 1, n, l, l + 1] { let amount = usize::MAX - d;
+            if self.try_reserve(amount).is_ok() && amount > 1 << 60 { return Err(format!("try_reserve(usize::MAX - {}) returned Ok", d)); }
+            if self.try_reserve_exact(amount).is_ok() && amount > 1 << 60 { return Err(format!("try_reserve_exact(usize::MAX - {}) returned Ok", d)); } }
+        if $T::len(self) != l { return Err("a failed try_reserve changed the length".into()); }
         Ok(()) }
 } }
 
@@ -126,6 +133,9 @@ impl Q for PriorityQueue<It, i32> {
     fn iter_mut_rewrite(&mut self, k: usize, d: i32, _b: bool) { for (_, p) in self.iter_mut().take(k) { *p += d; } }
     fn sorted_desc(self) -> Vec<It> { self.into_sorted_vec() }
     fn pop_hi_if_panic(&mut self) { self.pop_if(|_, p| { *p -= 900; panic!("user predicate") }); }
+    fn sorted_iter_lens(self, k: usize) -> Result<(), String> { let n = PriorityQueue::len(&self); let mut it = self.into_sorted_iter(); let mut left = n;
+        for _ in 0..=k { let (lo, hi) = it.size_hint(); if lo > left || hi.map_or(false, |h| h < left) { return Err(format!("into_sorted_iter: size_hint {:?} with {} elements left", (lo, hi), left)); }
+            if it.next().is_some() { left -= 1; } } Ok(()) }
     fn convert(self) -> Self { let d: DoublePriorityQueue<It, i32> = self.into(); d.into() }
 }
 impl Q for DoublePriorityQueue<It, i32> {
@@ -140,6 +150,9 @@ impl Q for DoublePriorityQueue<It, i32> {
         for _ in 0..k { let x = if from_back { it.next_back() } else { it.next() }; if let Some((_, p)) = x { *p += d; } } }
     fn sorted_desc(self) -> Vec<It> { self.into_descending_sorted_vec() }
     fn pop_hi_if_panic(&mut self) { self.pop_max_if(|_, p| { *p -= 900; panic!("user predicate") }); }
+    fn sorted_iter_lens(self, k: usize) -> Result<(), String> { let n = DoublePriorityQueue::len(&self); let mut it = self.into_sorted_iter(); let mut left = n;
+        for j in 0..=k { if it.len() != left || it.size_hint() != (left, Some(left)) { return Err(format!("into_sorted_iter: len {} size_hint {:?} with {} elements left", it.len(), it.size_hint(), left)); }
+            let x = if j % 2 == 0 { it.next() } else { it.next_back() }; if x.is_some() { left -= 1; } } Ok(()) }
     fn convert(self) -> Self { let d: PriorityQueue<It, i32> = self.into(); d.into() }
 }
 
@@ -168,7 +181,11 @@ fn step<T: Q>(q: &mut T, m: &mut Model, r: &mut Rng, log: &mut Vec<String>) -> R
     let id = r.below(ids) as u16;
     let p = if r.below(4) == 0 { r.below(1000) as i32 - 500 } else { r.below(7) as i32 };
     let tag = r.below(1_000_000) as u32;
-    match r.below(if FAULTS.load(std::sync::atomic::Ordering::Relaxed) { 28 } else { 25 }) {
+    let faults = FAULTS.load(std::sync::atomic::Ordering::Relaxed);
+    let op = { let o = r.below(if faults { 28 } else { 24 }); if !faults && o == 23 { 24 } else { o } };
+    // an observable that is wrong right after an operation is also a failure of what that operation promises
+    let oplabel = match op { 9 | 10 => "C11", 15 | 16 => "C08", 17 => "C08,C09", 18 | 19 => "C07", 20 => "C16", 21 => "C12", 22 => "C14,C15,C06,C07", 24 => "C17", _ => "" };
+    match op {
         0..=6 => { log.push(format!("push({},{})", id, p)); let old = q.push(It { id, tag }, p);
             ck!(old == m.get(&id).map(|x| x.1), "C03", "push returned {:?}, stored priority was {:?}", old, m.get(&id).map(|x| x.1));
             let t = m.get(&id).map(|x| x.0).unwrap_or(tag); m.insert(id, (t, p)); }
@@ -195,7 +212,7 @@ fn step<T: Q>(q: &mut T, m: &mut Model, r: &mut Rng, log: &mut Vec<String>) -> R
         15 => { let accept = r.below(2) == 0; log.push(format!("pop_if(set {}, {})", p, accept));
             let mx = m.values().map(|x| x.1).max(); let before = m.clone(); let rr = q.pop_hi_if(p, accept);
             if before.is_empty() { ck!(rr.is_none(), "C08", "pop_if on empty returned something"); }
-            else if accept { let (i, np) = match rr { Some(x) => x, None => return Err(Fail { props: "C08", what: "pop_if(true) returned None".into() }) };
+            else if accept { let (i, np) = match rr { Some(x) => x, None => return Err(Fail { props: "C08".into(), what: "pop_if(true) returned None".into() }) };
                 ck!(np == p && before.get(&i.id).map(|x| x.1) == mx, "C08,C03", "pop_if removed item {} (old priority {:?}), maximum was {:?}", i.id, before.get(&i.id), mx); m.remove(&i.id); }
             else { ck!(rr.is_none(), "C08", "pop_if(false) removed {:?}", rr);
                 // exactly one element, one that held the maximum, now has priority p
@@ -237,19 +254,34 @@ fn step<T: Q>(q: &mut T, m: &mut Model, r: &mut Rng, log: &mut Vec<String>) -> R
             let s = c.clone().sorted_desc(); ck!(s.len() == m.len(), "C06", "sorted vec has {} of {} elements", s.len(), m.len());
             let ps: Vec<i32> = s.iter().map(|i| m.get(&i.id).map(|x| x.1).unwrap_or(i32::MIN)).collect();
             ck!(ps.windows(2).all(|w| w[0] >= w[1]), "C06", "sorted vec is not in non-increasing order: {:?}", ps);
-            match q.roundtrip() { Ok(b) => { ck!(b.same(q), "C15", "serde round trip is not equal"); observe(&b, m).map_err(|f| Fail { props: "C15", what: format!("after serde round trip: {}", f.what) })?; } Err(e) => return Err(Fail { props: "C15", what: e }) }
+            if let Err(e) = c.clone().sorted_iter_lens(r.below(6) as usize) { return Err(Fail { props: "C13,C06".into(), what: e }); }
+            match q.roundtrip() { Ok(b) => { ck!(b.same(q), "C15", "serde round trip is not equal"); observe(&b, m).map_err(|f| Fail { props: "C15".into(), what: format!("after serde round trip: {}", f.what) })?; } Err(e) => return Err(Fail { props: "C15".into(), what: e }) }
+            { // a serialized sequence that repeats items (adjacent and not): no panic, a consistent queue over the distinct items
+                let n = r.below(14) as usize; let mut v: Vec<(It, i32)> = vec![];
+                for _ in 0..n { let i = if !v.is_empty() && r.below(3) == 0 { v[v.len() - 1].0.id } else { r.below(9) as u16 }; v.push((It { id: i, tag: 5 }, r.below(9) as i32)); }
+                let js = serde_json::to_string(&v).unwrap();
+                match catch_unwind(AssertUnwindSafe(|| T::from_json(&js))) {
+                    Err(_) => return Err(Fail { props: "C15,C04".into(), what: format!("deserializing {} panicked", js) }),
+                    Ok(Err(_)) => {}   // rejecting repeated items would be acceptable
+                    Ok(Ok(d)) => { let mut dm = Model::new(); for (i, p) in &v { let t = dm.get(&i.id).map(|x: &(u32, i32)| x.0).unwrap_or(i.tag); dm.insert(i.id, (t, *p)); }
+                        let ids: std::collections::BTreeSet<u16> = d.iter_pairs().iter().map(|x| x.0).collect();
+                        ck!(ids.len() == d.len() && ids == dm.keys().copied().collect(), "C15", "deserializing {} gives {} elements over items {:?}", js, d.len(), ids);
+                        let (lo, hi) = d.extremes(); let ps: Vec<i32> = d.iter_pairs().iter().map(|x| x.2).collect();
+                        ck!(hi == ps.iter().copied().max() && (T::kind() == "PriorityQueue" || lo == ps.iter().copied().min()), "C15", "deserializing {} gives a queue whose peeks {:?} are not its extremes", js, (lo, hi));
+                        let mut d = d; let mut prev = i32::MAX; let mut cnt = 0; while let Some((_, p)) = d.pop_hi() { ck!(p <= prev, "C15", "deserializing {} gives a queue that pops out of order", js); prev = p; cnt += 1; }
+                        ck!(cnt == ids.len(), "C15", "deserializing {} gives a queue that pops {} of {} elements", js, cnt, ids.len()); } } }
             let conv = c.convert(); ck!(conv.same(q), "C07", "conversion changed the contents"); *q = conv; }
-        23 => { log.push("mem::forget(iter_mut()) without writing through it".into()); q.leak_iter_mut(0); }
-        25 => { { let w = 1 + r.below(6) as usize; log.push(format!("FAULT: mem::forget(iter_mut()) after lowering the first {} priorities", w)); q.leak_iter_mut(w); return Err(Fail { props: "FAULT", what: String::new() }); } }
+        23 => { log.push("FAULT: mem::forget(iter_mut()) without writing through it".into()); q.leak_iter_mut(0); return Err(Fail { props: "FAULT".into(), what: String::new() }); }
+        25 => { { let w = 1 + r.below(6) as usize; log.push(format!("FAULT: mem::forget(iter_mut()) after lowering the first {} priorities", w)); q.leak_iter_mut(w); return Err(Fail { props: "FAULT".into(), what: String::new() }); } }
         26 | 27 => { let which = r.below(7); let k = r.below(12) as usize; log.push(format!("FAULT: operation #{} whose callback panics at call {} (caught)", which, k + 1));
                 let which2 = if T::kind() == "PriorityQueue" || which < 6 { which } else { 5 };
-                let _ = catch_unwind(AssertUnwindSafe(|| if which2 == 6 { q.pop_hi_if_panic() } else { q.faulty(which2, k, id) })); return Err(Fail { props: "FAULT", what: String::new() }); }
+                let _ = catch_unwind(AssertUnwindSafe(|| if which2 == 6 { q.pop_hi_if_panic() } else { q.faulty(which2, k, id) })); return Err(Fail { props: "FAULT".into(), what: String::new() }); }
         _ => { let n = r.below(50) as usize; log.push(format!("capacity ops {}", n));
-            match catch_unwind(AssertUnwindSafe(|| q.capacity_ops(n))) { Ok(Ok(())) => {}, Ok(Err(e)) => return Err(Fail { props: "C17", what: e }), Err(_) => return Err(Fail { props: "C17,C04", what: "capacity operation panicked".into() }) }
+            match catch_unwind(AssertUnwindSafe(|| q.capacity_ops(n))) { Ok(Ok(())) => {}, Ok(Err(e)) => return Err(Fail { props: "C17".into(), what: e }), Err(_) => return Err(Fail { props: "C17,C04".into(), what: "capacity operation panicked".into() }) }
             if r.below(2) == 0 { let v: Vec<(It, i32)> = m.iter().map(|(k, v)| (It { id: *k, tag: v.0 }, v.1)).collect(); log.push("rebuild through From<Vec>/FromIterator".into());
                 *q = if r.below(2) == 0 { T::from_vec(v) } else { T::from_it(v, 0, Some(usize::MAX)) }; } }
     }
-    observe(q, m)
+    observe(q, m).map_err(|f| Fail { props: if oplabel.is_empty() { f.props } else { format!("{},{}", f.props, oplabel) }, what: f.what })
 }
 
 fn run_seq<T: Q>(seed: u64, index: u64, len: usize, want: &str, trace: bool) -> Option<(String, Vec<String>)> {
@@ -264,10 +296,10 @@ fn run_seq<T: Q>(seed: u64, index: u64, len: usize, want: &str, trace: bool) -> 
         let n0 = log.len();
         let res = catch_unwind(AssertUnwindSafe(|| step(&mut q, &mut m, &mut r, &mut log)));
         if trace { for (k, s) in log.iter().enumerate().skip(n0) { println!("  {:3}: {}", k, s); } use std::io::Write; std::io::stdout().flush().ok(); }
-        let f = match res { Ok(Ok(())) => continue, Ok(Err(f)) => f, Err(e) => Fail { props: "C04", what: format!("panic: {}", e.downcast_ref::<String>().cloned().or(e.downcast_ref::<&str>().map(|s| s.to_string())).unwrap_or_default()) } };
+        let f = match res { Ok(Ok(())) => continue, Ok(Err(f)) => f, Err(e) => Fail { props: "C04".into(), what: format!("panic: {}", e.downcast_ref::<String>().cloned().or(e.downcast_ref::<&str>().map(|s| s.to_string())).unwrap_or_default()) } };
         if f.props == "FAULT" { lenient = true; }
         if lenient { continue; }
-        if want == "any" || f.props.split(',').any(|p| p == want) || f.props.contains("C04") && want == "C10" { return Some((format!("[{}] {}", f.props, f.what), log)); }
+        if want == "any" || f.props.split(',').any(|p| p == want) { return Some((format!("[{}] {}", f.props, f.what), log)); }
         return None; // a failure of another property: this history is spoiled, try the next one
     }
     None
